@@ -13,7 +13,7 @@ import (
 
 // c18Comment: a comment inside an enum rule with a symbolic body.
 func c18Comment(kind int) []byte {
-	n := v.Choose(0, 2)
+	n := v.Choose(0, 1)
 	body := []byte{}
 	for i := 0; i < n; i++ {
 		c := v.Byte()
@@ -32,14 +32,14 @@ func c18Comment(kind int) []byte {
 
 // ZZC18Enum: {enum: @E} + rule behaves like the inline list; Values/GetAST in source order.
 func ZZC18Enum() {
-	kinds := []gen.Kind{gen.KInt, gen.KStr, gen.KBool, gen.KNull, gen.KFloat}
+	kinds := []gen.Kind{gen.KInt, gen.KStr, gen.KBool, gen.KNull}
 	n := v.Choose(1, v.Param("values", 2))
 	var lits [][]byte
 	var ks []gen.Kind
 	for i := 0; i < n; i++ {
 		k := kinds[v.Choose(0, len(kinds)-1)]
 		ks = append(ks, k)
-		lits = append(lits, scalarOfKind(k))
+		lits = append(lits, smallLit(k))
 	}
 	// rule text with layout and comments
 	layout := v.Choose(0, 3) // 0 compact, 1 one per line, 2 with // comments, 3 with /* */ comments
@@ -121,9 +121,9 @@ func ZZC18Enum() {
 	kd := kinds[v.Choose(0, len(kinds)-1)]
 	var doc []byte
 	if kd == gen.KStr {
-		doc, _ = docString(2, v.Param("piecekinds", 6))
+		doc, _ = docString(1, v.Param("piecekinds", 6))
 	} else {
-		doc = scalarOfKind(kd)
+		doc = smallLit(kd)
 	}
 	v.Observe("doc", doc)
 	r1 := s1.Validate(json.New("d", doc))
